@@ -49,7 +49,7 @@ fn build(c: &Case) -> ScoringMatrix<A> {
         for (j, &x) in row.iter().enumerate() { d[i][j] = x as f32 / c.g as f32; }
     }
     let mut f: Vec<f32> = c.bn.iter().map(|&x| x as f32 / c.bd as f32).collect();
-    if f.len() == 4 { f.push(0.0); }
+    if f.len() == 4 { f.push(0.0); }   // (a fifth numerator is the wildcard's own frequency)
     let ga: GenericArray<f32, <A as Alphabet>::K> = f.into_iter().collect();
     ScoringMatrix::new(Background::new(ga).expect("valid background"), d)
 }
@@ -66,10 +66,48 @@ fn attainable(c: &Case) -> Vec<i64> {
     let mut s: std::collections::BTreeSet<i64> = [0].into_iter().collect();
     for row in &c.cells {
         let mut n = std::collections::BTreeSet::new();
-        for &a in &s { for &x in row { n.insert(a + x); } }
+        for &a in &s { for (k, &x) in row.iter().enumerate() { if c.bn[k] > 0 { n.insert(a + x); } } }
         s = n;
     }
     s.into_iter().collect()
+}
+
+/// Three ways the wildcard can matter (all legal: "any background", "finite NON-wildcard entries"):
+///   W1  scores -inf (what count data gives), background frequency of its own: a word holding an N has no finite score
+///   W2  finite scores, background frequency 0: the column must be ignored
+///   W3  finite scores and a frequency of its own: one more symbol of the word model (see `with_wildcard`)
+/// W1 keeps K = 5 in the events (bn[5] > 0, column -inf); W2 / W3 are written with K = 6.
+fn wildcard_variant(rng: &mut impl Rng, mut c: Case, which: usize) -> Case {
+    match which % 3 {
+        0 => {
+            c.bn = c.bn.iter().map(|&x| 2 * x).collect();
+            c.bd *= 2;
+            let j = (0..4).max_by_key(|&j| c.bn[j]).unwrap();
+            c.bn[j] -= 1;
+            c.bn.push(1);
+            c
+        }
+        1 => {
+            let lo = c.cells.iter().flatten().cloned().min().unwrap();
+            let hi = c.cells.iter().flatten().cloned().max().unwrap();
+            for row in c.cells.iter_mut() { let v = rng.gen_range(lo..=hi + 8); row.push(v); }
+            c.bn.push(0);
+            c
+        }
+        _ => with_wildcard(rng, c),
+    }
+}
+
+fn kk_of(c: &Case) -> usize { c.cells[0].len() + 1 }
+
+/// classification of the wildcard's role, logged with every event (the known findings are keyed on it)
+fn wild_of(c: &Case) -> &'static str {
+    match (c.cells[0].len() == 5, c.bn.len() == 5 && c.bn[4] > 0) {
+        (false, false) => "none",
+        (false, true) => "frequency_only",
+        (true, false) => "finite_scores_zero_frequency",
+        (true, true) => "finite_scores_and_frequency",
+    }
 }
 
 /// The wildcard as one more symbol of the word model: finite wildcard scores and a background that gives the wildcard a
@@ -87,7 +125,8 @@ fn with_wildcard(rng: &mut impl Rng, mut c: Case) -> Case {
     c
 }
 
-fn bn5(c: &Case) -> Vec<i64> { let mut b = c.bn.clone(); b.push(0); b }
+/// background numerators for the event: one entry per column of `pssm_json` (K entries)
+fn bn5(c: &Case) -> Vec<i64> { let mut b = c.bn.clone(); while b.len() < kk_of(c) { b.push(0); } b }
 
 fn pssm_json(c: &Case) -> Vec<Vec<i64>> {
     c.cells.iter().map(|r| { let mut r = r.clone(); r.push(NINF); r }).collect()
@@ -101,8 +140,8 @@ pub fn record_c11(rec: &mut Recorder, seed: u64, thorough: bool) {
     for it in 0..n {
         let m = if it % 10 == 9 { rng.gen_range(7..=8) } else { 1 + it % 6 };
         let c = gen_case(&mut rng, m, it);
-        let c = if it % 4 == 2 && m <= 6 { with_wildcard(&mut rng, c) } else { c };
-        let kk = c.cells[0].len() + 1;
+        let c = if it % 4 == 2 && m <= 6 { wildcard_variant(&mut rng, c, it / 4) } else { c };
+        let kk = kk_of(&c);
         let dn = den(&c);
         let r = guarded(|| {
             let pssm = build(&c);
@@ -138,8 +177,8 @@ pub fn record_c11(rec: &mut Recorder, seed: u64, thorough: bool) {
         rec.reset();
         rec.class(&format!("M{}", m.min(7)));
         rec.nontrivial(&(c.cells.clone(), c.bn.clone()));
-        if kk == 6 { rec.class("wildcard_with_own_frequency_and_finite_scores"); }
-        let mut e = json!({"ev":"dist","K":kk,"G":G,"pssm":pssm_json(&c),"bn":bn5(&c),"bd":c.bd,"den":dn as i64});
+        if kk == 6 || c.bn.len() == 5 { rec.class("wildcard_variant"); }
+        let mut e = json!({"ev":"dist","wild":wild_of(&c),"K":kk,"G":G,"pssm":pssm_json(&c),"bn":bn5(&c),"bd":c.bd,"den":dn as i64});
         match r {
             Ok(v) => { e["ret"] = json!("ok"); for (k, x) in v.as_object().unwrap() { e[k] = x.clone(); } }
             Err(msg) => { e["ret"] = json!("panic"); e["msg"] = json!(msg); }
@@ -200,6 +239,7 @@ pub fn record_c12(rec: &mut Recorder, seed: u64, thorough: bool) {
     let n = if thorough { 260 } else { 60 };
     for it in 0..n {
         let c = if it % 3 == 2 { fine_case(&mut rng, it) } else { tfm_case(&mut rng, it) };
+        let c = if it % 4 == 3 && c.cells.len() <= 5 { rec.class("wildcard_variant"); wildcard_variant(&mut rng, c, it / 4) } else { c };
         let dn = den(&c);
         let att = attainable(&c);
         let u = 2 * c.g;   // query scores in units of 1/(2g): on the grid and half a step above it
@@ -234,7 +274,7 @@ pub fn record_c12(rec: &mut Recorder, seed: u64, thorough: bool) {
             if c.g == 16 { rec.class("fine_grid_matrix"); }
             rec.class(if s8 < 2 * lo { "below_min" } else if s8 > 2 * hi { "above_max" } else if s8 % 2 == 0 { "on_grid" } else { "just_above_grid" });
             rec.nontrivial(&(c.cells.clone(), c.bn.clone(), s8));
-            let mut e = json!({"ev":"tfm_pvalue","K":5,"G":c.g,"pssm":pssm_json(&c),"bn":bn5(&c),"bd":c.bd,"den":dn as i64,"s8":s8});
+            let mut e = json!({"ev":"tfm_pvalue","wild":wild_of(&c),"K":kk_of(&c),"G":c.g,"pssm":pssm_json(&c),"bn":bn5(&c),"bd":c.bd,"den":dn as i64,"s8":s8});
             match r { Ok(v) => { e["ret"] = json!("ok"); e["iters"] = json!(v); } Err(msg) => { e["ret"] = json!("panic"); e["msg"] = json!(msg); e["iters"] = json!([]); } }
             rec.emit(e);
         }
@@ -246,6 +286,7 @@ pub fn record_c13(rec: &mut Recorder, seed: u64, thorough: bool) {
     let n = if thorough { 260 } else { 70 };
     for it in 0..n {
         let c = if it % 3 == 2 { displacing_case(&mut rng, it) } else if it % 2 == 1 { fine_case(&mut rng, it) } else { tfm_case(&mut rng, it) };
+        let c = if it % 7 == 6 && c.cells.len() <= 5 { rec.class("wildcard_variant"); wildcard_variant(&mut rng, c, it / 7) } else { c };
         let dn = den(&c) as i64;
         let pssm = build(&c);
         // p-values: small fractions, and (quantifier of C13) attainable tail probabilities n / den and the
@@ -286,7 +327,7 @@ pub fn record_c13(rec: &mut Recorder, seed: u64, thorough: bool) {
             if c.g == 16 { rec.class("fine_grid_matrix"); }
             if displacing { rec.class("row_offsets_not_scaling_with_granularity"); }
             rec.nontrivial(&(c.cells.clone(), c.bn.clone(), pn, pd, pc));
-            let mut e = json!({"ev":"tfm_score","K":5,"G":c.g,"pssm":pssm_json(&c),"bn":bn5(&c),"bd":c.bd,"den":dn,"pn":pn,"pd":pd.max(1),"pc":pc});
+            let mut e = json!({"ev":"tfm_score","wild":wild_of(&c),"K":kk_of(&c),"G":c.g,"pssm":pssm_json(&c),"bn":bn5(&c),"bd":c.bd,"den":dn,"pn":pn,"pd":pd.max(1),"pc":pc});
             match r { Ok(v) => { e["ret"] = json!("ok"); e["iters"] = json!(v); } Err(msg) => { e["ret"] = json!("panic"); e["msg"] = json!(msg); e["iters"] = json!([]); } }
             rec.emit(e);
         }
@@ -348,10 +389,14 @@ fn tiny_p(rec: &mut Recorder, rng: &mut impl Rng, thorough: bool) {
 /// further than (M + 2) g from the exact one.  Not part of any check; used to design the drivers.
 pub fn explore_c13(seed: u64) {
     let mut rng = rng(seed, 1300);
-    for fam in ["tfm", "fine", "displacing"] {
+    for fam in ["tfm", "fine", "displacing", "wildbg"] {
         let (mut cases, mut queries, mut bad, mut badcases) = (0, 0, 0, 0);
         for it in 0..120 {
-            let c = match fam { "tfm" => tfm_case(&mut rng, it), "fine" => fine_case(&mut rng, it), _ => displacing_case(&mut rng, it) };
+            let c = match fam { "tfm" => tfm_case(&mut rng, it), "fine" => fine_case(&mut rng, it), "displacing" => displacing_case(&mut rng, it),
+                _ => { // the wildcard has a frequency of its own (scores -inf): words holding an N never reach a finite score
+                    let mut c = tfm_case(&mut rng, it);
+                    c.bn = c.bn.iter().map(|&x| 2 * x).collect(); c.bd *= 2;
+                    let j = (0..4).max_by_key(|&j| c.bn[j]).unwrap(); c.bn[j] -= 1; c.bn.push(1); c } };
             let dn = den(&c) as i64;
             let pssm = build(&c);
             let tl = tails(&c);
@@ -377,9 +422,9 @@ pub fn explore_c13(seed: u64) {
                         let c1 = tail(t + d) <= p * dn as f64 + 1e-9;
                         let u = tl.iter().map(|x| x.0 as f64 / c.g as f64).filter(|&x| x < t - d - 1e-9).fold(f64::NEG_INFINITY, f64::max);
                         let c2 = !u.is_finite() || tail(u - d) >= p * dn as f64 - 1e-9;
-                        if !(c1 && c2) { bad += 1; anybad = true; break; }
+                        if !(c1 && c2) { bad += 1; anybad = true; if fam == "wildbg" && bad <= 6 { println!("  bad: cells={:?} bn={:?}/{} p={}/{} t={} g={} c1={} c2={} u={} tail(t+d)={} tail(u-d)={}", c.cells, c.bn, c.bd, 2 * nn + 1, 2 * dn, t, g, c1, c2, u, tail(t + d), tail(u - d)); } break; }
                     },
-                    Err(_) => { bad += 1; anybad = true; }
+                    Err(m) => { bad += 1; anybad = true; if fam == "wildbg" && bad <= 6 { println!("  panic: {} cells={:?} bn={:?}/{} p={}/{}", m, c.cells, c.bn, c.bd, 2 * nn + 1, 2 * dn); } }
                 }
             }
             if anybad { badcases += 1; }
